@@ -110,6 +110,9 @@ func c18Scenarios(tier core.Tier) []scenario {
 		// a writer confirmed on the losing branch and pending again on the winning one
 		{Name: "c18.orphan", Universe: "U-kv-orphan", Depth: 8 + d, Orcs: orcs,
 			Menu: chain.Menu{Recv: true, Sync: true, Submit: []string{"kvT"}, Mine: 1, Restart: true}},
+		// a second delete of a deleted key that is rolled back; a writer at different heights on two branches
+		{Name: "c18.deldel", Universe: "U-kv-deldel", Depth: 12 + d, Orcs: orcs,
+			Menu: chain.Menu{Recv: true, Sync: true}},
 		{Name: "c18.kv.restart", Universe: "U-kv", Depth: 7 + d, Orcs: orcs,
 			Menu: chain.Menu{Recv: true, Sync: true, Restart: true, Submit: []string{"pW1"}, Mine: 1, Blocks: []string{"k1", "k2", "k3", "k4"}}},
 	}
